@@ -117,7 +117,6 @@ func (c *ConnModule) Update(value sqlite.Value, values ...sqlite.Value) error {
 		}
 	}
 
-	c.sc.txFixedWriteTime = false
 	c.sc.ResetContext()
 
 	return nil
